@@ -183,6 +183,15 @@ class Analyzer:
                     g = self.escaping_global(a)
                     if g and not g[1]:
                         (DW if dbg else W).add(g[0])
+            # general escape rule: the address of a mutable static-storage variable (`&g`, `&g.f`, or such an array decaying to a
+            # pointer) that is STORED, RETURNED or used as an initialiser — anything but an immediate subscript / member access /
+            # call argument (handled above) — lets later code write the variable through the pointer: counted as a write here
+            # (seeded change C19-d: `*c = &static_instance; (*c)->key_len = ...`)
+            if k in ("BinaryOperator", "ReturnStmt", "VarDecl", "InitListExpr", "ConditionalOperator") and not (k == "BinaryOperator" and n.get("opcode") != "="):
+                for ch in (n.get("inner", []) or [])[(1 if k == "BinaryOperator" else 0):]:
+                    g = self.escaping_global(ch)
+                    if g and not g[1]:
+                        (DW if dbg else W).add(g[0])
             for ch in n.get("inner", []) or []:
                 visit(ch, dbg)
         visit(fn, False)
